@@ -385,3 +385,571 @@ Proof.
   unfold py_sort. destruct rv; [|apply isort_perm].
   rewrite <- Permutation_rev, isort_perm. symmetry. apply Permutation_rev.
 Qed.
+
+(* order of keys: text_leb is reflexive and total *)
+Lemma text_leb_refl a : text_leb a a = true.
+Proof.
+  induction a as [|x a IH]; [reflexivity|]. cbn [text_leb]. rewrite Z.ltb_irrefl. exact IH.
+Qed.
+
+Lemma text_leb_total : forall a b, text_leb a b = false -> text_leb b a = true.
+Proof.
+  induction a as [|x a IH]; intros [|y b] H; cbn [text_leb] in *; try discriminate; try reflexivity.
+  destruct (x <? y)%Z eqn:E1; [discriminate|].
+  destruct (y <? x)%Z eqn:E2; [reflexivity|]. now apply IH.
+Qed.
+
+(* "x may stand before y": keys in order (vacuous when a key callback raises - the sort is then abandoned) *)
+Definition kle (k : keyt) (x y : rt) : Prop :=
+  match key_of k (rid x), key_of k (rid y) with
+  | Some a, Some b => text_leb a b = true
+  | _, _ => True
+  end.
+
+(* has key a *)
+Definition hk (k : keyt) (a : text) (t : rt) : bool :=
+  match key_of k (rid t) with Some b => text_eqb a b | None => false end.
+
+Lemma HdRel_ins k x y l : HdRel (kle k) y l -> kle k y x -> HdRel (kle k) y (ins_sorted k x l).
+Proof.
+  intros H R. destruct l as [|z l]; [constructor; exact R|]. cbn [ins_sorted].
+  destruct (key_of k (rid x)) as [kx|] eqn:Ex; [|constructor; exact R].
+  destruct (key_of k (rid z)) as [kz|] eqn:Ez; [|constructor; exact R].
+  destruct (text_leb kx kz); constructor; [exact R|]. now inversion H.
+Qed.
+
+Lemma ins_sorted_sorted k x : forall l, Sorted (kle k) l -> Sorted (kle k) (ins_sorted k x l).
+Proof.
+  induction l as [|y l IH]; intros S; [repeat constructor|]. cbn [ins_sorted].
+  destruct (key_of k (rid x)) as [kx|] eqn:Ex.
+  2:{ constructor; [exact S|]. constructor. unfold kle. now rewrite Ex. }
+  destruct (key_of k (rid y)) as [ky|] eqn:Ey.
+  2:{ constructor; [exact S|]. constructor. unfold kle. now rewrite Ex, Ey. }
+  destruct (text_leb kx ky) eqn:E.
+  - constructor; [exact S|]. constructor. unfold kle. now rewrite Ex, Ey.
+  - inversion S as [|? ? S' Hd]; subst. constructor; [now apply IH|].
+    apply HdRel_ins; [exact Hd|]. unfold kle. rewrite Ex, Ey. now apply text_leb_total.
+Qed.
+
+Theorem isort_sorted k l : Sorted (kle k) (isort k l).
+Proof.
+  induction l as [|x l IH]; [constructor|]. cbn [isort fold_right]. fold (isort k l). now apply ins_sorted_sorted.
+Qed.
+
+Lemma filter_ins_sorted k a x : forall l,
+  filter (hk k a) (ins_sorted k x l) = (if hk k a x then [x] else []) ++ filter (hk k a) l.
+Proof.
+  induction l as [|y l IH]; [cbn; destruct (hk k a x); reflexivity|]. cbn [ins_sorted].
+  destruct (key_of k (rid x)) as [kx|] eqn:Ex; [|cbn [filter]; destruct (hk k a x); reflexivity].
+  destruct (key_of k (rid y)) as [ky|] eqn:Ey; [|cbn [filter]; destruct (hk k a x); reflexivity].
+  destruct (text_leb kx ky) eqn:E; [cbn [filter]; destruct (hk k a x); reflexivity|].
+  cbn [filter]. rewrite IH.
+  destruct (hk k a x) eqn:Hx, (hk k a y) eqn:Hy; try reflexivity.
+  exfalso. unfold hk in Hx, Hy. rewrite Ex in Hx. rewrite Ey in Hy.
+  apply text_eqb_eq in Hx, Hy. subst kx ky. rewrite text_leb_refl in E. discriminate.
+Qed.
+
+(* stability: the nodes with one key keep their relative order *)
+Theorem isort_stable k a l : filter (hk k a) (isort k l) = filter (hk k a) l.
+Proof.
+  induction l as [|x l IH]; [reflexivity|]. cbn [isort fold_right]. fold (isort k l).
+  rewrite filter_ins_sorted, IH. cbn [filter]. destruct (hk k a x); reflexivity.
+Qed.
+
+Lemma filter_rev' {X} (f : X -> bool) l : filter f (rev l) = rev (filter f l).
+Proof.
+  induction l as [|x l IH]; [reflexivity|]. cbn [rev filter]. rewrite filter_app, IH. cbn [filter].
+  destruct (f x); cbn [rev]; [reflexivity|now rewrite app_nil_r].
+Qed.
+
+Theorem py_sort_stable k rv a l : filter (hk k a) (py_sort k rv l) = filter (hk k a) l.
+Proof.
+  unfold py_sort. destruct rv; [|apply isort_stable].
+  rewrite filter_rev', isort_stable, filter_rev', rev_involutive. reflexivity.
+Qed.
+
+Fixpoint lastopt {X} (l : list X) : option X :=
+  match l with [] => None | [x] => Some x | _ :: l' => lastopt l' end.
+
+Lemma Sorted_snoc {X} (Q : X -> X -> Prop) x : forall m,
+  Sorted Q m -> (forall y, lastopt m = Some y -> Q y x) -> Sorted Q (m ++ [x]).
+Proof.
+  induction m as [|z m IH]; intros S H; [repeat constructor|]. cbn [app].
+  inversion S as [|? ? S' Hd]; subst. constructor.
+  - apply IH; [exact S'|]. intros y Hy. apply H. destruct m; [discriminate|exact Hy].
+  - destruct m as [|z' m]; cbn [app]; constructor; [apply H; reflexivity|now inversion Hd].
+Qed.
+
+Lemma last_error_rev_cons {X} (y : X) l : lastopt (rev (y :: l)) = Some y.
+Proof. cbn [rev]. induction (rev l) as [|z m IH]; [reflexivity|]. cbn [app]. destruct (m ++ [y]) eqn:E; [destruct m; discriminate|exact IH]. Qed.
+
+Lemma Sorted_rev {X} (R : X -> X -> Prop) : forall l, Sorted R l -> Sorted (fun a b => R b a) (rev l).
+Proof.
+  induction l as [|x l IH]; intros S; [constructor|]. cbn [rev]. inversion S as [|? ? S' Hd]; subst.
+  apply Sorted_snoc; [now apply IH|]. intros y Hy. destruct l as [|z l]; [discriminate|].
+  rewrite last_error_rev_cons in Hy. injection Hy as <-. now inversion Hd.
+Qed.
+
+(* ascending without reverse, descending with reverse *)
+Theorem py_sort_sorted k l :
+  Sorted (kle k) (py_sort k false l) /\ Sorted (fun x y => kle k y x) (py_sort k true l).
+Proof. unfold py_sort. split; [apply isort_sorted|apply Sorted_rev, isort_sorted]. Qed.
+
+(* -- sort_children(deep=False) on the machine: the child list named by the op is replaced by its sorted
+      permutation; rows outside are unchanged -- *)
+Theorem sort_flat_effect w ti p k rv r w' :
+  op_sort w ti p k rv false = (Ok r, w') ->
+  exists t t' pq ch,
+    get_tree w ti = Some t /\ get_tree w' ti = Some t' /\
+    parent_path p (forest_of t) = Some pq /\ get_ch pq (forest_of t) = Some ch /\
+    get_ch pq (forest_of t') = Some (py_sort k rv ch) /\
+    repl_rows (rows p ch) (rows p (py_sort k rv ch)) (rows 0 (forest_of t)) (rows 0 (forest_of t')) /\
+    (forall tj, tj <> ti -> get_tree w' tj = get_tree w tj).
+Proof.
+  unfold op_sort. intros H.
+  destruct (get_tree w ti) as [t|] eqn:Et; [|discriminate].
+  destruct (parent_path p (forest_of t)) as [pq|] eqn:Ep; [|discriminate].
+  destruct (get_ch pq (forest_of t)) as [ch|] eqn:Ec; [|discriminate].
+  destruct (sort_list k rv false ch) as [ch' failed] eqn:Es.
+  destruct failed; [discriminate|]. injection H as <- <-.
+  assert (E' : ch' = py_sort k rv ch).
+  { unfold sort_list in Es. destruct ch as [|c0 ch0]; [injection Es as <-; destruct rv; reflexivity|].
+    destruct (Nat.eqb (length (c0 :: ch0)) 1 && negb false) eqn:E1.
+    - injection Es as <-. destruct ch0; [|discriminate]. unfold py_sort, isort. destruct rv; reflexivity.
+    - destruct (negb (keys_ok k (c0 :: ch0))); [discriminate|]. now injection Es as <-. }
+  subst ch'.
+  eexists t, _, pq, ch.
+  split; [first [reflexivity|exact Et]|]. split; [exact (get_put_same _ _ t _ Et)|].
+  split; [first [reflexivity|exact Ep]|]. split; [first [reflexivity|exact Ec]|]. split; [|split].
+  - cbn [forest_of set_forest]. now rewrite (get_ch_upd_ch _ _ _ _ Ec).
+  - cbn [forest_of set_forest].
+    destruct (upd_ch_context pq (forest_of t) 0 ch Ec) as (A & B & E1 & E2).
+    rewrite (parent_path_owner p _ pq ch Ep Ec) in E1, E2.
+    exists A, B. split; [exact E1|]. now rewrite E2.
+  - intros tj Hj. rewrite get_put_other by congruence. reflexivity.
+Qed.
+
+(* ------------------------------------------------------------------ *)
+(* Part 5: remove / move / shortcuts / metadata at the level of [step] *)
+
+Lemma get_node_live t n s : get_node n (forest_of t) = Some s -> live t n = true.
+Proof.
+  intros H. destruct (get_node_spec n _ s H) as (Hin & Hr). unfold live. apply existsb_exists.
+  exists n. split; [|apply Nat.eqb_refl]. unfold ids. rewrite <- Hr. now apply in_map.
+Qed.
+
+Lemma remove_one_some t n keep s : get_node n (forest_of t) = Some s -> exists t', remove_one t n keep = Some t'.
+Proof.
+  intros H. destruct (get_node_loc n _ s H) as (q0 & i & l & El & En).
+  unfold remove_one, remove_keep, remove_branch, detach. rewrite El, En.
+  destruct keep; [eexists; reflexivity|]. destruct (unregister_all _ _ _). eexists; reflexivity.
+Qed.
+
+(* remove(keep_children=k) of one node: [remove_keep] / [remove_branch] of exactly that node *)
+Theorem remove_effect w ti n keep r w' :
+  op_remove w ti n keep false = (Ok r, w') ->
+  exists t t', get_tree w ti = Some t /\ get_tree w' ti = Some t' /\ r = [] /\
+               (if keep then remove_keep t n = Some t' else remove_branch t n = Some t') /\
+               next w' = next w /\ (forall tj, tj <> ti -> get_tree w' tj = get_tree w tj).
+Proof.
+  unfold op_remove. intros H.
+  destruct (get_tree w ti) as [t|] eqn:Et; [|discriminate].
+  destruct (did_of n (forest_of t)) as [d|] eqn:Ed; [|discriminate].
+  unfold did_of in Ed. destruct (get_node n (forest_of t)) as [s|] eqn:Es; [|discriminate].
+  destruct (keep && existsb (keep_collides_all t [n]) [n]); [discriminate|].
+  injection H as <- <-. cbn [fold_left]. rewrite (get_node_live t n s Es).
+  destruct (remove_one_some t n keep s Es) as (t' & E'). rewrite E'.
+  exists t, t'. split; [first [reflexivity|exact Et]|]. split; [exact (get_put_same _ _ t _ Et)|].
+  split; [reflexivity|]. split; [destruct keep; exact E'|]. split; [reflexivity|].
+  intros tj Hj. rewrite get_put_other by congruence. reflexivity.
+Qed.
+
+Lemma parent_path_has_ch p f pq : parent_path p f = Some pq -> exists ch, get_ch pq f = Some ch.
+Proof.
+  unfold parent_path. destruct (Nat.eqb p 0).
+  - intros H. injection H as <-. now exists f.
+  - intros H. destruct (node_path_sound p f pq H) as (s & H1 & _).
+    destruct (node_at_loc pq f s 0 H1) as (G & _). now exists (rch s).
+Qed.
+
+(* move_to: the branch leaves its place and is inserted, under its new parent, at the
+   documented position of the target's child list as it is AFTER the node was taken out *)
+Theorem move_effect w ti n target b r w' :
+  op_move w ti n ti target b = (Ok r, w') ->
+  (w' = w /\ norm_before b = NNode n) \/
+  exists t t' s f1 pq ch1 o A B C D,
+    get_tree w ti = Some t /\ get_tree w' ti = Some t' /\ rid s = n /\
+    detach n (forest_of t) = Some (s, f1) /\
+    parent_path target f1 = Some pq /\ get_ch pq f1 = Some ch1 /\
+    get_ch pq (forest_of t') = Some (place (norm_before b) s ch1) /\
+    rows 0 (forest_of t) = A ++ rows_t o s ++ B /\ rows 0 f1 = A ++ B /\
+    rows 0 f1 = C ++ D /\ rows 0 (forest_of t') = C ++ rows_t target s ++ D /\
+    reg t' = reg t /\ idx t' = idx t /\
+    (forall tj, tj <> ti -> get_tree w' tj = get_tree w tj).
+Proof.
+  unfold op_move. intros H.
+  destruct (get_tree w ti) as [t|] eqn:Et; [|discriminate].
+  destruct (typed t); [discriminate|]. rewrite Nat.eqb_refl in H. cbn [negb] in H.
+  destruct (get_node n (forest_of t)) as [s|] eqn:Es; [|discriminate].
+  destruct (children_of target (forest_of t)) as [tch|] eqn:Etc; [|discriminate].
+  destruct (parent_of n (forest_of t)) as [cur|] eqn:Ecur; [|discriminate].
+  destruct (is_desc_or_self n target (forest_of t)); [discriminate|].
+  destruct (negb (before_ok (norm_before b) tch)); [discriminate|].
+  destruct (negb (Nat.eqb cur target) && existsb (fun c => did_eqb (rdid c) (rdid s)) tch); [discriminate|].
+  destruct (norm_before b) as [|z|s0] eqn:Enb.
+  1,2: right. 3: destruct (Nat.eqb s0 n) eqn:Es0; [left; injection H as _ <-; apply Nat.eqb_eq in Es0; subst s0; split; reflexivity|right].
+  all: unfold move_in in H;
+    destruct (detach n (forest_of t)) as [[s1 f1]|] eqn:Ed; [|discriminate];
+    destruct (parent_path target f1) as [pq|] eqn:Ep; [|discriminate];
+    injection H as <- <-;
+    unfold detach in Ed;
+    destruct (node_loc n (forest_of t)) as [[[q0 i] l]|] eqn:El; [|discriminate];
+    destruct (nth_error l i) as [s2|] eqn:En; [|discriminate];
+    injection Ed as <- <-;
+    destruct (node_loc_spec n _ q0 i l El) as (Hg & s' & Hs & Hr & _);
+    rewrite En in Hs; injection Hs as <-;
+    destruct (parent_path_has_ch target _ pq Ep) as (ch1 & Ec1);
+    destruct (upd_ch_context q0 (forest_of t) 0 l Hg) as (A & B & E1 & E2);
+    destruct (nth_error_split l i En) as (a & c & -> & <-);
+    destruct (upd_ch_context pq _ 0 ch1 Ec1) as (C & D & F1 & F2);
+    rewrite (parent_path_owner target _ pq ch1 Ep Ec1) in F1, F2;
+    destruct (place_split (norm_before b) s2 ch1) as (a1 & c1 & Ea & Eb);
+    set (o := owner q0 (forest_of t) 0) in *;
+    exists t, (set_forest t (upd_ch pq (place (norm_before b) s2) (upd_ch q0 (remove_nth (length a)) (forest_of t)))),
+           s2, (upd_ch q0 (remove_nth (length a)) (forest_of t)), pq, ch1, o,
+           (A ++ rows o a), (rows o c ++ B), (C ++ rows target a1), (rows target c1 ++ D);
+    rewrite <- Enb;
+    (split; [first [reflexivity|exact Et]|]); (split; [exact (get_put_same _ _ t _ Et)|]); (split; [exact Hr|]);
+    (split; [unfold detach; rewrite El, En; reflexivity|]); (split; [exact Ep|]); (split; [exact Ec1|]);
+    (split; [cbn [forest_of set_forest]; now rewrite (get_ch_upd_ch _ _ _ _ Ec1)|]);
+    (split; [rewrite E1, rows_app; cbn [flat_map]; la|]);
+    (split; [rewrite E2, remove_nth_split, rows_app; la|]);
+    (split; [rewrite F1, Ea, rows_app; la|]);
+    (split; [cbn [forest_of set_forest]; rewrite F2, Eb, rows_app; cbn [flat_map]; la|]);
+    (split; [reflexivity|]); (split; [reflexivity|]);
+    intros tj Hj; rewrite get_put_other by congruence; reflexivity.
+Qed.
+
+(* -- the shortcuts -- *)
+Theorem append_child_is_add w ti n d e k t : get_tree w ti = Some t ->
+  op_shortcut w ti n SAppendChild d e k = op_add w ti n d e k BNone.
+Proof. intros H. unfold op_shortcut. now rewrite H. Qed.
+
+Theorem prepend_child_is_add_first w ti n d e k t ch : get_tree w ti = Some t ->
+  children_of n (forest_of t) = Some ch ->
+  exists b, op_shortcut w ti n SPrependChild d e k = op_add w ti n d e k b /\
+            forall x, place (norm_before b) x ch = x :: ch.
+Proof.
+  intros H Hc. unfold op_shortcut. rewrite H, Hc. destruct ch as [|c ch].
+  - exists BNone. split; reflexivity.
+  - exists (BNode (rid c)). split; [reflexivity|]. intros x. cbn [norm_before]. rewrite place_node_ne.
+    cbn [index_by_id]. now rewrite Nat.eqb_refl.
+Qed.
+
+Lemma index_by_id_app s : forall a l, Forall (fun u => rid u <> s) a ->
+  index_by_id s (a ++ l) = option_map (fun j => length a + j) (index_by_id s l).
+Proof.
+  induction a as [|c a IH]; intros l F; cbn [app index_by_id length].
+  - destruct (index_by_id s l); reflexivity.
+  - inversion F as [|? ? Hc F']; subst. apply Nat.eqb_neq in Hc. rewrite Hc, (IH l F').
+    destruct (index_by_id s l); reflexivity.
+Qed.
+
+(* prepend_sibling / append_sibling: directly before / directly after the node *)
+Theorem sibling_positions (a : list rt) t c x : NoDup (map rid (a ++ t :: c)) ->
+  place (NNode (rid t)) x (a ++ t :: c) = a ++ x :: t :: c /\
+  place (norm_before (match nth_error (a ++ t :: c) (S (length a)) with Some nx => BNode (rid nx) | None => BNone end)) x (a ++ t :: c)
+    = a ++ t :: x :: c.
+Proof.
+  intros ND. rewrite map_app in ND. cbn [map] in ND.
+  assert (Fa : Forall (fun u => rid u <> rid t) a).
+  { apply Forall_forall. intros u Hu E. apply NoDup_remove_2 in ND. apply ND. apply in_or_app. left.
+    rewrite <- E. now apply in_map. }
+  assert (Hne : forall l0, exists c0 l1, a ++ t :: l0 = c0 :: l1) by (intros; destruct a; cbn; eauto).
+  split.
+  - destruct (Hne c) as (c0 & l1 & E0). rewrite E0, place_node_ne, <- E0.
+    rewrite (index_by_id_app _ a _ Fa). cbn [index_by_id]. rewrite Nat.eqb_refl. cbn [option_map].
+    unfold insert_at. rewrite Nat.add_0_r, firstn_app, Nat.sub_diag, firstn_all. cbn [firstn]. rewrite app_nil_r.
+    rewrite skipn_app, Nat.sub_diag, skipn_all. reflexivity.
+  - replace (nth_error (a ++ t :: c) (S (length a))) with (hd_error c).
+    2:{ rewrite nth_error_app2 by lia. replace (S (length a) - length a) with 1 by lia. destruct c; reflexivity. }
+    destruct c as [|nx c]; cbn [hd_error norm_before].
+    + rewrite place_append. la.
+    + destruct (Hne (nx :: c)) as (c0 & l1 & E0). rewrite E0, place_node_ne, <- E0.
+      assert (Fb : Forall (fun u => rid u <> rid nx) (a ++ [t])).
+      { apply Forall_forall. intros u Hu E. apply in_app_or in Hu.
+        apply NoDup_remove in ND. destruct ND as (ND1 & ND2).
+        destruct Hu as [Hu|[<-|[]]].
+        - apply (in_map rid) in Hu. rewrite E in Hu.
+          rewrite <- map_app in ND1. cbn [map] in ND1.
+          assert (ND3 : NoDup (map rid a ++ rid nx :: map rid c)) by (rewrite map_app in ND1; exact ND1).
+          apply NoDup_remove_2 in ND3. apply ND3. apply in_or_app. now left.
+        - apply ND2. apply in_or_app. right. left. now symmetry. }
+      replace (a ++ t :: nx :: c) with ((a ++ [t]) ++ nx :: c) by la.
+      rewrite (index_by_id_app _ (a ++ [t]) _ Fb). cbn [index_by_id]. rewrite Nat.eqb_refl. cbn [option_map].
+      unfold insert_at. rewrite Nat.add_0_r, firstn_app, Nat.sub_diag, firstn_all. cbn [firstn]. rewrite app_nil_r.
+      rewrite skipn_app, Nat.sub_diag, skipn_all. la.
+Qed.
+
+(* -- set_meta / clear_meta / update_meta: the payload of exactly one row, and only its meta field -- *)
+Theorem meta_effect w ti n o r w' :
+  op_meta w ti n o = (Ok r, w') ->
+  exists t t' A B p s,
+    get_tree w ti = Some t /\ get_tree w' ti = Some t' /\ rid s = n /\
+    rows 0 (forest_of t) = A ++ (p, n, rinfo s) :: B /\
+    rows 0 (forest_of t') = A ++ (p, n, set_meta_i (apply_meta o (i_meta (rinfo s))) (rinfo s)) :: B /\
+    reg t' = reg t /\ idx t' = idx t /\
+    (forall tj, tj <> ti -> get_tree w' tj = get_tree w tj).
+Proof.
+  unfold op_meta. intros H.
+  destruct (get_tree w ti) as [t|] eqn:Et; [|discriminate].
+  destruct (live t n) eqn:El; [|discriminate]. injection H as <- <-.
+  assert (Hin : In n (ids (forest_of t))).
+  { unfold live in El. apply existsb_exists in El. destruct El as (m & Hm & E). apply Nat.eqb_eq in E. now subst m. }
+  destruct (set_info_effect n (fun i => set_meta_i (apply_meta o (i_meta i)) i) (forest_of t) Hin) as (A & B & p & s & E1 & E2 & E3).
+  eexists t, _, A, B, p, s.
+  split; [first [reflexivity|exact Et]|]. split; [exact (get_put_same _ _ t _ Et)|]. split; [exact E2|].
+  split; [exact E1|]. split; [exact E3|]. split; [reflexivity|]. split; [reflexivity|].
+  intros tj Hj. rewrite get_put_other by congruence. reflexivity.
+Qed.
+
+(* ------------------------------------------------------------------ *)
+(* Part 6: set_data / rename: the rows of exactly the re-labelled nodes change their payload *)
+
+Definition upd_rows (group : list nat) (g : info -> info) (r : row) : row :=
+  if existsb (Nat.eqb (r_id r)) group then (r_par r, r_id r, g (r_info r)) else r.
+
+Lemma map_id_on {X} (f : X -> X) l : (forall x, In x l -> f x = x) -> map f l = l.
+Proof. induction l as [|x l IH]; intros H; [reflexivity|]. cbn. rewrite H by now left. f_equal. apply IH. intros y Hy. apply H. now right. Qed.
+
+Lemma set_info_rows_map n g f : NoDup (ids f) -> In n (ids f) ->
+  rows 0 (set_info_at n g f) = map (upd_rows [n] g) (rows 0 f).
+Proof.
+  intros ND Hin. destruct (set_info_effect n g f Hin) as (A & B & o & s & E1 & _ & E2).
+  rewrite E2, E1, map_app. cbn [map].
+  assert (NDr : NoDup (map r_id (rows 0 f))) by (rewrite rows_ids; exact ND).
+  rewrite E1, map_app in NDr. cbn [map] in NDr. change (r_id (o, n, rinfo s)) with n in NDr.
+  pose proof (NoDup_remove_2 _ _ _ NDr) as Hn.
+  assert (HA : map (upd_rows [n] g) A = A).
+  { apply map_id_on. intros x Hx. unfold upd_rows. cbn [existsb]. destruct (Nat.eqb (r_id x) n) eqn:E; [|reflexivity].
+    exfalso. apply Nat.eqb_eq in E. apply Hn. apply in_or_app. left. rewrite <- E. now apply in_map. }
+  assert (HB : map (upd_rows [n] g) B = B).
+  { apply map_id_on. intros x Hx. unfold upd_rows. cbn [existsb]. destruct (Nat.eqb (r_id x) n) eqn:E; [|reflexivity].
+    exfalso. apply Nat.eqb_eq in E. apply Hn. apply in_or_app. right. rewrite <- E. now apply in_map. }
+  apply (f_equal2 (@app row)); [symmetry; exact HA|]. apply (f_equal2 (@cons row)); [|symmetry; exact HB].
+  unfold upd_rows. cbn [existsb r_id r_par r_info fst snd]. rewrite Nat.eqb_refl. reflexivity.
+Qed.
+
+Lemma upd_rows_id group g r : r_id (upd_rows group g r) = r_id r.
+Proof. unfold upd_rows. destruct (existsb _ group); reflexivity. Qed.
+
+Lemma set_info_ids n g f : NoDup (ids f) -> In n (ids f) -> ids (set_info_at n g f) = ids f.
+Proof.
+  intros ND Hin. rewrite <- !(rows_ids _ 0), (set_info_rows_map n g f ND Hin), map_map.
+  apply map_ext. intros r. apply upd_rows_id.
+Qed.
+
+Lemma upd_rows_cons m group g r : ~ In m group ->
+  upd_rows group g (upd_rows [m] g r) = upd_rows (m :: group) g r.
+Proof.
+  intros Hn. unfold upd_rows. cbn [existsb]. destruct (Nat.eqb (r_id r) m) eqn:E; cbn [orb]; [|reflexivity].
+  cbn [r_id r_par r_info fst snd]. apply Nat.eqb_eq in E.
+  destruct (existsb (Nat.eqb (r_id r)) group) eqn:Ex; [|reflexivity].
+  exfalso. apply existsb_exists in Ex. destruct Ex as (y & Hy & Ey). apply Nat.eqb_eq in Ey.
+  subst. contradiction.
+Qed.
+
+(* every member of the group gets g applied to its payload, all other rows stay *)
+Theorem relabel_rows g : forall group f, NoDup (ids f) -> NoDup group -> incl group (ids f) ->
+  rows 0 (relabel group g f) = map (upd_rows group g) (rows 0 f) /\ ids (relabel group g f) = ids f.
+Proof.
+  unfold relabel. induction group as [|m group IH]; intros f ND NDg Hi; cbn [fold_left].
+  - split; [|reflexivity]. symmetry. apply map_id_on. intros r _. reflexivity.
+  - assert (Hm : In m (ids f)) by (apply Hi; now left).
+    inversion NDg as [|? ? Hnm NDg']; subst.
+    pose proof (set_info_ids m g f ND Hm) as Eids.
+    destruct (IH (set_info_at m g f)) as (E1 & E2).
+    + now rewrite Eids.
+    + exact NDg'.
+    + rewrite Eids. intros x Hx. apply Hi. now right.
+    + split; [|now rewrite E2]. rewrite E1, (set_info_rows_map m g f ND Hm), map_map.
+      apply map_ext. intros r. now apply upd_rows_cons.
+Qed.
+
+(* set_data at the level of step: the forest is re-labelled on a group that is the node itself or
+   (with_clones=True) its whole clone group; kind and meta are never touched; registry unchanged *)
+Theorem set_data_effect w ti n d e wc r w' :
+  op_set_data w ti n d e wc = (Ok r, w') ->
+  exists t t' s group g,
+    get_tree w ti = Some t /\ get_tree w' ti = Some t' /\ get_node n (forest_of t) = Some s /\
+    forest_of t' = relabel group g (forest_of t) /\
+    (group = [] \/ group = [n] \/ group = idx_get (rdid s) (idx t)) /\
+    (forall i, i_kind (g i) = i_kind i /\ i_meta (g i) = i_meta i) /\
+    reg t' = reg t /\ next w' = next w.
+Proof.
+  unfold op_set_data. intros H.
+  destruct (get_tree w ti) as [t|] eqn:Et; [|discriminate].
+  destruct (get_node n (forest_of t)) as [s|] eqn:Es; [|discriminate].
+  assert (G : forall (P : Prop), (forall t' group g, 
+             (w' = put_tree w ti t' \/ (w' = w /\ t' = t)) -> forest_of t' = relabel group g (forest_of t) ->
+             (group = [] \/ group = [n] \/ group = idx_get (rdid s) (idx t)) ->
+             (forall i, i_kind (g i) = i_kind i /\ i_meta (g i) = i_meta i) -> reg t' = reg t -> P) -> P).
+  { intros P K.
+    repeat match type of H with
+           | (match ?x with _ => _ end) = _ => destruct x eqn:?
+           | (if ?c then _ else _) = _ => destruct c eqn:?
+           | (let (_, _) := ?x in _) = _ => destruct x eqn:?
+           end; try discriminate; injection H as <- <-.
+    all: try (eapply (K _ _ _ (or_introl eq_refl)); [cbn [forest_of set_all set_forest]; reflexivity| | |reflexivity];
+              [first [right; left; reflexivity | right; right; reflexivity | idtac]
+              | intros i; repeat match goal with |- context [match ?x with _ => _ end] => destruct x end; split; reflexivity]).
+    all: try (eapply (K t [] (fun i => i) (or_intror (conj eq_refl eq_refl))); [reflexivity|left; reflexivity|intros; split; reflexivity|reflexivity]).
+    all: repeat match goal with |- context [if ?c then _ else _] => destruct c end; auto. }
+  apply G. intros t' group g Hw Hf Hg Hk Hr.
+  destruct Hw as [->|(-> & ->)].
+  - exists t, t', s, group, g. split; [first [reflexivity|exact Et]|]. split; [exact (get_put_same _ _ t _ Et)|].
+    split; [first [reflexivity|exact Es]|]. repeat split; auto; apply Hk.
+  - exists t, t, s, group, g. repeat split; auto; apply Hk.
+Qed.
+
+(* ------------------------------------------------------------------ *)
+(* Part 7: sort(deep=True) *)
+
+(* relational specification, independent of fuel and failure flags: at every level of the branch
+   the child list is the stable sorted permutation [py_sort] of what it was, and the sorted
+   children are themselves deep-sorted *)
+Inductive deep_sorted (k : keyt) (rv : bool) : rt -> rt -> Prop :=
+| DS id i ch ch' : Forall2 (deep_sorted k rv) (py_sort k rv ch) ch' -> deep_sorted k rv (T id i ch) (T id i ch').
+
+Lemma sort_deep_failed fuel k rv t : sort_deep fuel k rv t true = (t, true).
+Proof. destruct fuel; [reflexivity|]. destruct t; reflexivity. Qed.
+
+(* the loop over the (already sorted) children, as it occurs in sort_deep and sort_list *)
+Definition deep_loop (fuel : nat) (k : keyt) (rv : bool) :=
+  fix go (l : list rt) (failed : bool) {struct l} : list rt * bool :=
+    match l with
+    | [] => ([], failed)
+    | c :: l' => let (c', f1) := sort_deep fuel k rv c failed in
+                 let (r', f2) := go l' f1 in (c' :: r', f2)
+    end.
+
+Lemma deep_loop_failed fuel k rv : forall l, deep_loop fuel k rv l true = (l, true).
+Proof.
+  induction l as [|c l IH]; [reflexivity|]. cbn [deep_loop]. rewrite sort_deep_failed.
+  fold (deep_loop fuel k rv). now rewrite IH.
+Qed.
+
+Lemma deep_loop_spec fuel k rv
+  (IH : forall c c', sort_deep fuel k rv c false = (c', false) -> size c < fuel -> deep_sorted k rv c c') :
+  forall l l', deep_loop fuel k rv l false = (l', false) -> (forall c, In c l -> size c < fuel) ->
+               Forall2 (deep_sorted k rv) l l'.
+Proof.
+  induction l as [|c l IHl]; intros l' H Hs.
+  - cbn in H. injection H as <-. constructor.
+  - cbn [deep_loop] in H. fold (deep_loop fuel k rv) in H.
+    destruct (sort_deep fuel k rv c false) as [c' f1] eqn:Ec.
+    destruct f1.
+    + rewrite deep_loop_failed in H. discriminate.
+    + destruct (deep_loop fuel k rv l false) as [r' f2] eqn:El. injection H as <- ->.
+      constructor.
+      * apply IH; [exact Ec|apply Hs; now left].
+      * apply IHl; [reflexivity|]. intros x Hx. apply Hs. now right.
+Qed.
+
+Lemma size_le_sum c : forall l, In c l -> size c <= list_sum (map size l).
+Proof.
+  unfold list_sum. induction l as [|x l IH]; intros H; [destruct H|]. cbn [map fold_right]. destruct H as [->|H]; [lia|].
+  specialize (IH H). lia.
+Qed.
+
+Lemma in_py_sort k rv c l : In c (py_sort k rv l) -> In c l.
+Proof. intros H. eapply Permutation_in; [apply py_sort_perm|exact H]. Qed.
+
+Theorem sort_deep_spec k rv : forall fuel t t',
+  sort_deep fuel k rv t false = (t', false) -> size t < fuel -> deep_sorted k rv t t'.
+Proof.
+  induction fuel as [|fuel IH]; intros t t' H Hs; [lia|].
+  destruct t as [id i ch]. cbn [sort_deep] in H.
+  destruct ch as [|c0 ch0].
+  - injection H as <-. constructor. destruct rv; constructor.
+  - destruct (negb (keys_ok k (c0 :: ch0))); [discriminate|].
+    fold (deep_loop fuel k rv) in H.
+    destruct (deep_loop fuel k rv (py_sort k rv (c0 :: ch0)) false) as [r f] eqn:El.
+    cbn [fst snd] in H. injection H as <- ->.
+    constructor. apply (deep_loop_spec fuel k rv IH _ _ El).
+    intros c Hc. apply in_py_sort in Hc. pose proof (size_le_sum c _ Hc) as L.
+    change (size (T id i (c0 :: ch0))) with (S (list_sum (map size (c0 :: ch0)))) in Hs. lia.
+Qed.
+
+(* Tree.sort / sort_children(deep=True) on a child list *)
+Theorem sort_list_deep_spec k rv ch ch' :
+  sort_list k rv true ch = (ch', false) -> Forall2 (deep_sorted k rv) (py_sort k rv ch) ch'.
+Proof.
+  unfold sort_list. intros H. destruct ch as [|c0 ch0].
+  - injection H as <-. destruct rv; constructor.
+  - rewrite andb_false_r in H. destruct (negb (keys_ok k (c0 :: ch0))); [discriminate|].
+    fold (deep_loop (S (size_f (c0 :: ch0))) k rv) in H.
+    apply (deep_loop_spec _ k rv (fun c c' E L => sort_deep_spec k rv _ c c' E L) _ _ H).
+    intros c Hc. apply in_py_sort in Hc. pose proof (size_le_sum c _ Hc) as L. unfold size_f. lia.
+Qed.
+
+(* what deep_sorted means for the tree: same root, every node of the result has a sorted child list,
+   and the nodes are the same *)
+Lemma deep_sorted_root k rv t t' : deep_sorted k rv t t' -> rid t' = rid t /\ rinfo t' = rinfo t.
+Proof. intros H. destruct H. split; reflexivity. Qed.
+
+(* sort at the level of step, any [deep]: the named child list becomes [ch'], everything outside unchanged;
+   deep=false: ch' = py_sort ch; deep=true: ch' is py_sort ch with every child deep-sorted *)
+Theorem sort_effect w ti p k rv dp r w' :
+  op_sort w ti p k rv dp = (Ok r, w') ->
+  exists t t' pq ch ch',
+    get_tree w ti = Some t /\ get_tree w' ti = Some t' /\
+    parent_path p (forest_of t) = Some pq /\ get_ch pq (forest_of t) = Some ch /\
+    get_ch pq (forest_of t') = Some ch' /\
+    (if dp then Forall2 (deep_sorted k rv) (py_sort k rv ch) ch' else ch' = py_sort k rv ch) /\
+    repl_rows (rows p ch) (rows p ch') (rows 0 (forest_of t)) (rows 0 (forest_of t')) /\
+    reg t' = reg t /\ idx t' = idx t /\
+    (forall tj, tj <> ti -> get_tree w' tj = get_tree w tj).
+Proof.
+  destruct dp.
+  2:{ intros H. destruct (sort_flat_effect w ti p k rv r w' H) as (t & t' & pq & ch & E1 & E2 & E3 & E4 & E5 & E6 & E7).
+      exists t, t', pq, ch, (py_sort k rv ch). repeat split; auto.
+      all: unfold op_sort in H; rewrite E1, E3, E4 in H; destruct (sort_list k rv false ch) as [x []]; try discriminate;
+           injection H as _ <-; rewrite (get_put_same _ _ t _ E1) in E2; injection E2 as <-; reflexivity. }
+  unfold op_sort. intros H.
+  destruct (get_tree w ti) as [t|] eqn:Et; [|discriminate].
+  destruct (parent_path p (forest_of t)) as [pq|] eqn:Ep; [|discriminate].
+  destruct (get_ch pq (forest_of t)) as [ch|] eqn:Ec; [|discriminate].
+  destruct (sort_list k rv true ch) as [ch' failed] eqn:Es.
+  destruct failed; [discriminate|]. injection H as <- <-.
+  eexists t, _, pq, ch, ch'.
+  split; [first [reflexivity|exact Et]|]. split; [exact (get_put_same _ _ t _ Et)|].
+  split; [first [reflexivity|exact Ep]|]. split; [first [reflexivity|exact Ec]|].
+  split; [cbn [forest_of set_forest]; now rewrite (get_ch_upd_ch _ _ _ _ Ec)|].
+  split; [now apply sort_list_deep_spec|].
+  split.
+  - cbn [forest_of set_forest].
+    destruct (upd_ch_context pq (forest_of t) 0 ch Ec) as (A & B & E1 & E2).
+    rewrite (parent_path_owner p _ pq ch Ep Ec) in E1, E2.
+    exists A, B. split; [exact E1|]. now rewrite E2.
+  - split; [reflexivity|]. split; [reflexivity|]. intros tj Hj. rewrite get_put_other by congruence. reflexivity.
+Qed.
+
+(* -- del tree[key] and rename are the operations they are documented to be -- *)
+Theorem del_effect w ti key r w' :
+  op_del w ti key = (Ok r, w') ->
+  exists t n, get_tree w ti = Some t /\ getitem t key = Some [n] /\ op_remove w ti n false false = (Ok r, w').
+Proof.
+  unfold op_del. intros H. destruct (get_tree w ti) as [t|] eqn:Et; [|discriminate].
+  destruct (getitem t key) as [[|n [|? ?]]|] eqn:Eg; try discriminate. exists t, n. auto.
+Qed.
+
+Theorem rename_effect w ti n d r w' :
+  op_rename w ti n d = (Ok r, w') ->
+  exists t s, get_tree w ti = Some t /\ get_node n (forest_of t) = Some s /\ i_isstr (rinfo s) = true /\
+              op_set_data w ti n (Some d) None None = (Ok r, w').
+Proof.
+  unfold op_rename. intros H. destruct (get_tree w ti) as [t|] eqn:Et; [|discriminate].
+  destruct (get_node n (forest_of t)) as [s|] eqn:Es; [|discriminate].
+  destruct (i_isstr (rinfo s)) eqn:E; [|discriminate]. exists t, s. auto.
+Qed.
